@@ -11,6 +11,12 @@ LEVEL_TEXT = ("bounded symbolic execution of the real menelaus functions (CPytho
 
 CLAIMED = {
     # id: (design_ref, level_note, technique)
+    "C01": ("DESIGN.md 7/C01",
+            "representation invariants of the scalar detectors (proved inductive); numeric library calls stubbed by contract "
+            "as listed in evidence.assumptions; real arithmetic instead of IEEE floats; MD3 via C19",
+            "symbolic execution of the real update/reset of 14 detectors with z3: one inductive step from an arbitrary "
+            "state (DDM, EDDM, STEPD, PageHinkley; unbounded parameters) and bounded histories with free numeric decisions "
+            "(CUSUM, ADWIN, ADWINAccuracy, LFR, kdq-tree x2, HDDDM, CDBD, NNDVI, PCACD)"),
     "C13": ("DESIGN.md 7/C13",
             "members modelled as objects exposing drift_state; parameters on their documented domains; z3 LIA; CPython",
             "symbolic execution of election.py with z3: all vote patterns for n<=5/6 members with unbounded integer "
